@@ -114,8 +114,12 @@ def parent_miss(ctx):
            % [src(h.ast.type) for h in hs if h.ast.type is not None])
     for h in hs:
         out = handler_outcomes(cfg, h)
-        ctx.ob(set(out) <= {'raise-bare', 'raise-var', 'normal'} and 'normal' in out and len(out) == 2, u,
+        ctx.ob(set(out) <= {'raise-bare', 'raise-var', 'normal', 'return'} and ('normal' in out or 'return' in out)
+               and len(out) == 2, u,
                'a missing parent re-raises unless ignored', 'outcomes %s' % sorted(out))
+        # an ignored miss hands back the target untouched
+        for r in [x for x in ast.walk(h.ast) if isinstance(x, ast.Return)]:
+            ctx.ob(is_name(r.value, u.params[1]), u, 'an ignored miss returns the target: %s' % norm(r), node=r)
         for r in [x for x in ast.walk(h.ast) if isinstance(x, ast.Raise)]:
             g = [a for a in ancestors(r) if isinstance(a, ast.If)]
             ok = bool(g) and norm(g[0].test) == 'not self.ignore_missing'
@@ -124,8 +128,13 @@ def parent_miss(ctx):
     ctx.require(len(tr) == 1, 'Delete.glomit: try not found')
     t = tr[0]
     dels = [c for c in calls_in(u) if callee_qual(p, u, c) == 'mutation._apply_for_each']
-    ok = len(dels) == 1 and any(dels[0] in ast.walk(s) for s in t.orelse)
-    ctx.ob(ok, u, 'the deletion runs only when the parent was fetched (try-else): %s' % [norm(d) for d in dels])
+    ok = len(dels) == 1
+    if ok:
+        dn = cfg.node_containing(dels[0])
+        # reached from the fetch's normal completion, never from the miss handler, and not guarded by it
+        ok = all(cfg.find_path(h, {dn}) is None for h in hs) and cfg.dominates(en, dn) \
+            and not any(h in cfg.handlers_reached_from(dn) for h in hs)
+    ctx.ob(ok, u, 'the deletion runs only when the parent was fetched, outside the fetch\'s handler: %s' % [norm(d) for d in dels])
     roles = {}
     roles.update(locals_from_attrs(u, ('op', 'arg', 'path')))
     split = None
@@ -185,7 +194,8 @@ def same_object(ctx):
     rets = [n for n in u.own_nodes() if isinstance(n, ast.Return)]
     cfg = ctx.cfg(u)
     rb = any(nm == u.params[1] for n in cfg.nodes if n is not cfg.entry for nm, _ in cfg.defs_at(n))
-    ctx.ob(len(rets) == 1 and is_name(rets[0].value, u.params[1]) and not rb, u, 'Delete returns the object it was given: %s' % [norm(r) for r in rets])
+    ctx.ob(len(rets) >= 1 and all(is_name(r.value, u.params[1]) for r in rets) and not rb, u,
+           'Delete returns the object it was given: %s' % [norm(r) for r in rets])
     ru = ctx.unit('mutation.Delete._del_one')
     ctx.ob(not [n for n in ru.own_nodes() if isinstance(n, ast.Return) and n.value is not None], ru, 'deleting yields nothing of its own')
     ctx.floor(2)
